@@ -183,6 +183,7 @@ func C03(r *core.Report) {
 	r.Floor("C03.R1", 12)
 	c03CacheKeying(r)
 	c14NoPooledAliasAs(r, "C03.R3")
+	valueOnlyOnHashMatch(r, "C03.R4")
 }
 
 // callResultObjs returns the variables that receive the results of call in f (excluding errors)
